@@ -290,6 +290,26 @@ EdgePts(a, b) == LET dx == b[1] - a[1]  dy == b[2] - a[2]  g == GCD(Abs(dx), Abs
                  IN [k \in 1..g |-> <<a[1] + k * (dx \div g), a[2] + k * (dy \div g)>>]
 Dense(pts) == <<pts[1]>> \o Flat([k \in 1..(Len(pts) - 1) |-> EdgePts(pts[k], pts[k + 1])])
 
+(* rectangle with one extra node in its bottom edge (at x = xb) and one in its top edge (at x = xt): the same polygon,
+   its horizontal edges subdivided at intermediate positions *)
+RectS(x0, y0, x1, y1, xb, xt) == Closed(<< <<x0, y0>>, <<xb, y0>>, <<x1, y0>>, <<x1, y1>>, <<xt, y1>>, <<x0, y1>> >>)
+RectSSet == IF "rectS" \in Kinds THEN
+   {RectS(q[1], q[2], q[3], q[4], q[5], q[6]) :
+      q \in {q \in R0 \X R0 \X R0 \X R0 \X R0 \X R0 : q[1] < q[5] /\ q[5] < q[3] /\ q[1] < q[6] /\ q[6] < q[3] /\ q[2] < q[4]}}
+   ELSE {}
+(* trapezoid with horizontal parallel sides: bottom side [a, b] at height y0, top side [d, c] at height y1; the other two
+   sides may slant either way (parallelograms, slanted quadrilaterals); c = d: triangle with a horizontal base and its
+   apex anywhere above (y0 < y1) or below (y0 > y1) it.  Left and right side never meet: at every height the right one is right of the left one.
+   "trapT": the same with vertical parallel sides. *)
+Trap(y0, y1, a, b, d, c) == Closed(IF c = d THEN << <<a, y0>>, <<b, y0>>, <<c, y1>> >>
+                                            ELSE << <<a, y0>>, <<b, y0>>, <<c, y1>>, <<d, y1>> >>)
+TrapBase == IF "trap" \in Kinds \/ "trapT" \in Kinds THEN
+   {Trap(q[1], q[2], q[3], q[4], q[5], q[6]) :
+      q \in {q \in R0 \X R0 \X R0 \X R0 \X R0 \X R0 : q[1] # q[2] /\ q[3] < q[4] /\ q[5] <= q[6]}}
+   ELSE {}
+TrapSet == IF "trap" \in Kinds THEN TrapBase ELSE {}
+TrapTSet == IF "trapT" \in Kinds THEN {Transp(t) : t \in TrapBase} ELSE {}
+
 RectDSet == {Dense(s) : s \in RectSet}
 TriDSet == {Dense(s) : s \in TriSet}
 LDSet == {Dense(s) : s \in LSet}
@@ -304,7 +324,10 @@ KindSet(k) == CASE k = "rect" -> RectSet
                 [] k = "triD" -> TriDSet
                 [] k = "LD" -> LDSet
                 [] k = "diaD" -> DiaDSet
-Catalogue == UNION {KindSet(k) : k \in Kinds}
+                [] k = "rectS" -> RectSSet
+                [] k = "trap" -> TrapSet
+                [] k = "trapT" -> TrapTSet
+CatalogueOf(ks) == UNION {KindSet(k) : k \in ks}      \* (an operator with a parameter: not evaluated at start-up)
 
 ShapeSegs(pts) == [k \in 1..(Len(pts) - 1) |-> Seg(pts[k], pts[k + 1])]
 Bbox(pts) == LET xs == {pts[k][1] : k \in 1..Len(pts)}  ys == {pts[k][2] : k \in 1..Len(pts)}
@@ -338,6 +361,44 @@ FirstCandidates(k, md) ==
             ELSE all
    IN IF c = {} THEN all ELSE c
 
+(* ------------------------------------------------------------------ scripted family "hole over island" *)
+(* ModeSeq = <<"isle">>: four rings in fixed relations, all vertex-disjoint (so the bag is a valid arrangement):
+     ring 1  outer ring over the whole grid, its edges subdivided by extra collinear nodes ("rectS": one extra node in
+             the bottom and one in the top edge; "rectD": every lattice point),
+     ring 2  a hole strictly within ring 1, at least 4 wide and 3 high, leaving room above it,
+     ring 3  an island strictly within the hole; not only rectangles: trapezoids / parallelograms / slanted
+             quadrilaterals / triangles with the apex anywhere ("trap", "trapT"), L shapes, diamonds
+             (rectangular islands: family "chain"),
+     ring 4  a second hole of ring 1 above the first hole, over the island (its x range within the island's if there is
+             such a shape, else overlapping it): a vertical line through it passes through the island - twice - and
+             through the first hole before it reaches ring 1.
+   With the last ring the whole figure is mapped by one of the 8 symmetries of the grid square (SymSeq, weighted),
+   so the second hole also comes below, left and right of the first one. *)
+IsleScript == Len(ModeSeq) > 0 /\ ModeSeq[1] = "isle"
+IsleKinds(n) == LET want == CASE n = 1 -> {"rectS", "rectD"}
+                              [] n = 2 -> {"rect", "rectS"}
+                              [] n = 3 -> {"trap", "trapT", "L", "dia"}
+                              [] OTHER -> {"rect", "tri", "dia", "trap"}
+                IN IF want \cap Kinds = {} THEN Kinds ELSE want \cap Kinds
+IsleCandidates(k, rs) ==
+   LET all == KindSet(k)
+       n == Len(rs) + 1
+   IN CASE n = 1 -> {s \in all : LET sb == Bbox(s) IN sb.x0 = 0 /\ sb.y0 = 0 /\ sb.x1 = G /\ sb.y1 = G}
+        [] n = 2 -> LET b1 == Bbox(rs[1])
+                    IN {s \in all : LET sb == Bbox(s) IN /\ BWithin(sb, b1) /\ sb.x1 - sb.x0 >= 4 /\ sb.y1 - sb.y0 >= 3
+                                                        /\ sb.y1 <= b1.y1 - 3}
+        [] n = 3 -> LET b2 == Bbox(rs[2]) IN {s \in all : BWithin(Bbox(s), b2)}
+        [] OTHER -> LET b1 == Bbox(rs[1])  b2 == Bbox(rs[2])  b3 == Bbox(rs[3])
+                        over == {s \in all : LET sb == Bbox(s) IN /\ BWithin(sb, b1) /\ sb.y0 > b2.y1
+                                                                 /\ sb.x0 < b3.x1 /\ b3.x0 < sb.x1}
+                        right == {s \in over : Bbox(s).x0 >= b3.x0 /\ Bbox(s).x1 <= b3.x1}
+                    IN IF right # {} THEN right ELSE over      \* preferably all of it over the island
+(* the symmetries of the grid square: g = 0..7, bit 0: mirror x, bit 1: mirror y, bit 2: transpose first *)
+SymPt(g, p) == LET q == IF g >= 4 THEN <<p[2], p[1]>> ELSE p
+               IN <<IF g % 2 = 1 THEN G - q[1] ELSE q[1], IF (g \div 2) % 2 = 1 THEN G - q[2] ELSE q[2]>>
+SymRings(g, rs) == [i \in 1..Len(rs) |-> [k \in 1..Len(rs[i]) |-> SymPt(g, rs[i][k])]]
+SymSeq == <<0, 0, 0, 0, 0, 1, 1, 1, 1, 1, 2, 3, 4, 5, 6, 7>>
+
 (* ------------------------------------------------------------------ the case builder *)
 VARIABLES stage, nrings, rings, kind, mode, refi, mut, bag, exp, style, rpat, rem, ways, cur, stut, roles, nd
 vars == <<stage, nrings, rings, kind, mode, refi, mut, bag, exp, style, rpat, rem, ways, cur, stut, roles, nd>>
@@ -351,13 +412,15 @@ Init == /\ stage = "start" /\ nrings = 0 /\ rings = <<>> /\ kind = "" /\ mode = 
         /\ roles = <<>> /\ nd = 0
 
 Start == /\ stage = "start"
-         /\ \E c \in 1..Len(CountSeq) : CountSeq[c] <= MaxRings /\ nrings' = CountSeq[c]
+         /\ IF IsleScript THEN nrings' = 4
+            ELSE \E c \in 1..Len(CountSeq) : CountSeq[c] <= MaxRings /\ nrings' = CountSeq[c]
          /\ stage' = "kind"
          /\ UNCHANGED <<rings, kind, mode, refi, mut, bag, exp, style, rpat, rem, ways, cur, stut, roles, nd>>
 
 PickKind == /\ stage = "kind"
-            /\ kind' \in Kinds
-            /\ IF rings = <<>> THEN mode' \in (IF nrings > 1 THEN {ModeSeq[1], "big"} ELSE {"any"}) /\ refi' = 0
+            /\ kind' \in (IF IsleScript THEN IsleKinds(Len(rings) + 1) ELSE Kinds)
+            /\ IF IsleScript THEN mode' = "isle" /\ refi' = 0
+               ELSE IF rings = <<>> THEN mode' \in (IF nrings > 1 THEN {ModeSeq[1], "big"} ELSE {"any"}) /\ refi' = 0
                ELSE \E i \in 1..Len(ModeSeq), j \in 1..Len(rings) :
                       mode' = ModeSeq[i] /\ refi' = IF ModeSeq[i] = "chain" THEN Len(rings) ELSE j
             /\ stage' = "shape"
@@ -365,10 +428,14 @@ PickKind == /\ stage = "kind"
 
 RingBag == Flat([k \in 1..Len(rings) |-> ShapeSegs(rings[k])])
 PickShape == /\ stage = "shape"
-             /\ LET c == {s \in (IF rings = <<>> THEN FirstCandidates(kind, mode) ELSE Candidates(kind, mode, rings[refi])) :
+             /\ LET c == {s \in (IF IsleScript THEN IsleCandidates(kind, rings)
+                                  ELSE IF rings = <<>> THEN FirstCandidates(kind, mode) ELSE Candidates(kind, mode, rings[refi])) :
                            Len(RingBag) + Len(s) - 1 <= MaxSegs}
                 IN IF c = {} THEN rings # <<>> /\ rings' = rings /\ stage' = "mut"     \* no room for another ring
-                   ELSE /\ \E s \in c : rings' = Append(rings, s)
+                   ELSE /\ \E s \in c :
+                             IF IsleScript /\ Len(rings) + 1 = nrings
+                             THEN \E g \in 1..Len(SymSeq) : rings' = SymRings(SymSeq[g], Append(rings, s))
+                             ELSE rings' = Append(rings, s)
                         /\ stage' = IF Len(rings) + 1 < nrings THEN "kind" ELSE "mut"
              /\ UNCHANGED <<nrings, kind, mode, refi, mut, bag, exp, style, rpat, rem, ways, cur, stut, roles, nd>>
 
@@ -469,6 +536,8 @@ ModeDeep == <<"chain", "chain", "chain", "chain", "chain", "chain", "chain", "wi
 ModeChain == <<"chain">>
 ModeAny == <<"any">>
 ModeWithin == <<"within">>
+ModeSame == <<"same">>
+ModeIsle == <<"isle">>
 ModeAll == <<"any", "within", "inside", "around", "apart", "touch", "touchout", "touchin", "same">>
 MutThmQ == <<"none", "drop", "dupring">>
 
